@@ -50,6 +50,15 @@ def r9_2(repo: Repo) -> RuleResult:
                 cond, other = n.test, nxt.value
             else:
                 continue
+            if isinstance(cond, ast.UnaryOp) and isinstance(cond.op, ast.Not):
+                # `if not (code <= mcc): return table[...]` followed by / else `return chr(code)`: the table arm is the taken one
+                cond = cond.operand
+                if isinstance(n, ast.IfExp):
+                    other = n.body
+                elif n.orelse:
+                    other = n.body[0].value
+                else:
+                    other = n.body[0].value
             if not (isinstance(cond, ast.Compare) and len(cond.ops) == 1 and "max_char_code" in norm(cond.comparators[0])):
                 continue
             subs = [s for s in ast.walk(other) if isinstance(s, ast.Subscript) and "max_char_code" in norm(s.slice)]
